@@ -385,15 +385,46 @@ impl DcpsDomainParticipant {
         filter_expression: String,
         expression_parameters: Vec<String>,
     ) -> DdsResult<InstanceHandle> {
-        if !self
+        let Some(related_topic) = self
             .domain_participant
             .locally_created_topic_list
             .iter()
-            .any(|x| x.topic_name == related_topic_name)
-        {
+            .find(|x| x.topic_name == related_topic_name)
+        else {
             return Err(DdsError::PreconditionNotMet(format!(
                 "Related topic with name {related_topic_name} does not exist."
             )));
+        };
+
+        // The filter is evaluated for every sample the readers of this topic receive. Reject here
+        // what that evaluation does not support: the expression must be `<member> <= ...` or
+        // `<member> = ...` on an INT32 or string member of the related topic's type, compared
+        // with the first expression parameter (an integer for an INT32 member)
+        let member_kind = ["<=", "="]
+            .iter()
+            .find_map(|operator| filter_expression.split_once(operator))
+            .and_then(|(member_name, _)| {
+                related_topic
+                    .type_support
+                    .get_member_by_name(member_name.trim())
+                    .ok()
+            })
+            .map(|member| member.descriptor.r#type.get_kind());
+        let is_supported = match (member_kind, expression_parameters.first()) {
+            (Some(crate::xtypes::dynamic_type::TypeKind::INT32), Some(parameter)) => {
+                parameter.parse::<i32>().is_ok()
+            }
+            (
+                Some(
+                    crate::xtypes::dynamic_type::TypeKind::STRING8
+                    | crate::xtypes::dynamic_type::TypeKind::STRING16,
+                ),
+                Some(_),
+            ) => true,
+            _ => false,
+        };
+        if !is_supported {
+            return Err(DdsError::BadParameter);
         }
 
         let topic_handle = InstanceHandle::new([
